@@ -27,6 +27,7 @@ import LdkModel.Model.TlvProbe
     tlvp <hex>             tlvProbeSchema (Model/TlvProbe.lean: required TLVs 2, 6; optional 3, 9) over a bare TLV stream;
                            `ok <a> <b|-> <c> <d|->` / `err ..`
     tlvpe <a> <b|-> <c> <d|->  encodeTlvs over tlvProbeSchema (also through TlvSrc.encodeTlvStreamSrc, the translated `encode_tlv_stream!`); hex
+    wlvec <n> <hex>            FieldTy.chunks n decode (WithoutLength<Vec<T>>, n-byte elements) + TlvSrc.wlVecLoopSrc; `ok <count> <hex>`
     every Schema decode (ops dec, tlvp) is ALSO run through TlvSrc.schemaDecodeSrc, the reader built from the decisions translated from
     util/ser_macros.rs / util/ser.rs (Generated/TlvLoop.lean, proved equal: Props/C13Tlv tlv_loop_is_source); ` src-differs` is appended
     when the two disagree -/
@@ -185,6 +186,17 @@ def c13 : Drv where
       match schemaDec tlvProbeSchema (unhex h) with
       | (.ok v, d) => ((), "ok " ++ " ".intercalate (v.tlvs.map fun o => match o with | some (.nat n) => toString n | _ => "-") ++ d)
       | (.error e, d) => ((), "err " ++ e.name ++ d)
+    | ["wlvec", n, h] =>
+      -- `WithoutLength<Vec<T>>` over n-byte elements: the model's `.chunks n` decoder, cross-checked with the loop translated from
+      -- util/ser.rs (Props/C13Tlv without_length_vec_is_source)
+      let n := nat! n
+      let b := unhex h
+      let r := (FieldTy.chunks n).decode b
+      let src := (TlvSrc.wlVecLoopSrc n (b.length + 1) [] b).map (fun l => (TlvSrc.bytesVec l, ([] : Bytes)))
+      let d := if src == r then "" else " src-differs"
+      match r with
+      | .ok (v, _) => ((), s!"ok {v.len} " ++ hex ((FieldTy.chunks n).encode v) ++ d)
+      | .error e => ((), "err " ++ e.name ++ d)
     | _ => ((), "bad-op")
 
 end Ldk.Driver
